@@ -613,10 +613,14 @@ void World::apply(const Json::Value& op) {
       c->memstatSet("pgscan", c->memstatGet("pgscan") + op.get("pgscan", 0).asInt64());
       if (!c->iostat.empty()) {
         int64_t io = op.get("io", 0).asInt64();
-        c->iostat[0].rbytes += io;
-        c->iostat[0].wbytes += io / 2;
-        c->iostat[0].rios += io / 4096;
-        c->iostat[0].wios += io / 8192;
+        // the activity goes to the device line the plan names (first one by
+        // default)
+        auto& ln = c->iostat[(size_t)op.get("io_line", 0).asInt() %
+                             c->iostat.size()];
+        ln.rbytes += io;
+        ln.wbytes += io / 2;
+        ln.rios += io / 4096;
+        ln.wios += io / 8192;
       }
       if (op.isMember("cur"))
         c->cur = op["cur"].asInt64();
